@@ -282,6 +282,20 @@ def stubchain_instance(ctx, R):
         # the variable that is returned holds the layers
         rets = [n_ for n_ in body if isinstance(n_, ast.Return)]
         lname = rets[-1].value.id if rets and isinstance(rets[-1].value, ast.Name) else "layers"
+        stored_before = {x.id for s_ in body[:start] for x in ast.walk(s_) if isinstance(x, ast.Name) and isinstance(x.ctx, ast.Store)}
+        if lname not in stored_before:
+            # the layering is handed to the stub phase in some local computed before it: the one local the first stub-phase
+            # statement reads
+            cands = {x.id for x in ast.walk(body[start]) if isinstance(x, ast.Name) and isinstance(x.ctx, ast.Load)} & stored_before
+            if len(cands) == 1:
+                lname = next(iter(cands))
+        for _ in range(4):
+            # `result = layers; return result`: the list the stub phase works on is the one behind the returned name
+            al = [n_ for n_ in body if isinstance(n_, ast.Assign) and len(n_.targets) == 1 and isinstance(n_.targets[0], ast.Name) and n_.targets[0].id == lname]
+            if len(al) == 1 and isinstance(al[0].value, ast.Name) and body.index(al[0]) >= start:
+                lname = al[0].value.id
+            else:
+                break
         st.env.vars[lname] = layers
         _bind_self_aliases(ev, st, f, before=body[start].lineno)
         r = ev.block(body[start:], st, [])
